@@ -40,18 +40,20 @@ func (h *Sources) Save() {
 
 	// When we add an item to the undo history, the history is cut after
 	// the state that was undone to: the undone steps are dropped, not it.
-	if line.pos > len(line.items) {
-		line.pos = len(line.items)
+	items, back := line.items, line.pos
+	if back > len(items) {
+		back = len(items)
 	}
 
-	if line.pos > 0 {
-		line.items = line.items[:len(line.items)-line.pos+1]
+	if back > 0 {
+		items = items[:len(items)-back+1]
+		line.items = items
 	}
 
 	// When the line is identical to the previous undo, we just update
 	// the cursor position if it's a different one.
-	if len(line.items) > 0 && line.items[len(line.items)-1].line == string(*h.line) {
-		line.items[len(line.items)-1].pos = h.cursor.Pos()
+	if len(items) > 0 && items[len(items)-1].line == string(*h.line) {
+		items[len(items)-1].pos = h.cursor.Pos()
 		return
 	}
 
@@ -120,25 +122,27 @@ func (h *Sources) Undo() {
 		back = 0
 	}
 
-	line.pos = back
+	items = line.items
 
 	// When undoing, we loop through preceding undo items
 	// as long as they are identical to the current line.
 	for {
-		line.pos++
+		back++
 
 		// Exit if we reached the end.
-		if line.pos > len(line.items) {
-			line.pos = len(line.items)
+		if back > len(items) {
+			line.pos = len(items)
 			return
 		}
 
 		// Break as soon as we find a non-matching line.
-		undo = line.items[len(line.items)-line.pos]
+		undo = items[len(items)-back]
 		if undo.line != string(*h.line) {
 			break
 		}
 	}
+
+	line.pos = back
 
 	// Use the undo we found
 	h.line.Set([]rune(undo.line)...)
